@@ -1206,6 +1206,16 @@ package ring
 //@   ensures implies(isnil(err), n == announced(pol))
 
 // constructors whose results the abstract contracts above the ring layer treat as opaque
+// ---- NTT constants of a sub-ring (property C19): the function succeeds only for a prime modulus
+// ---- congruent to 1 modulo the root order (NthRoot, a power of two: a divisor of 2^64), which is what
+// ---- makes (q-1)/NthRoot exact and Psi a primitive NthRoot-th root.  Only this validating prefix is
+// ---- verified (`tail`): the computation of the root tables that follows is not.
+//@ func SubRing.generateNTTConstants
+//@   property C19
+//@   requires 0 < s.NthRoot && W % s.NthRoot == 0
+//@   tail 5 assigns s.PrimitiveRoot, s.Factors, s.NInv, s.RootsForward, s.RootsBackward
+//@   ensures implies(err == nil, isprime(s.Modulus) && s.Modulus % s.NthRoot == 1 % s.NthRoot) by and_mask(s.Modulus, s.NthRoot)
+
 // ---- the generator of NTT-friendly primes (property C19): the candidates of both directions stay
 // ---- congruent to 1 modulo NthRoot, the downstream sequence starts one step BELOW the upstream one and
 // ---- both move away from each other, so no prime is handed out twice; every value returned is prime.
